@@ -77,7 +77,7 @@ theorem vsize_of_fixed (env : Env) (t : Ty) (s : Nat) (hs : fixedSize t = some s
   | .scalar w n, h => by
       simp only [wt] at h
       rcases h with ⟨_, h | h | h | h | h⟩
-      · subst h; simp [fixedSize] at hs; simp [vsize, hs]
+      · obtain ⟨h, _⟩ := h; subst h; simp [fixedSize] at hs; simp [vsize, hs]
       · rcases h with ⟨rfl, rfl, _⟩; simp [fixedSize, Facts.szBool] at hs; simp [vsize, hs]
       · rcases h with ⟨rfl, rfl⟩; simp [fixedSize, Facts.szFloat32] at hs; simp [vsize, hs]
       · rcases h with ⟨rfl, rfl⟩; simp [fixedSize, Facts.szFloat64] at hs; simp [vsize, hs]
@@ -133,6 +133,33 @@ end Bebop
 
 namespace Bebop
 
+theorem Progress.tail {v : Val} {vs : List Val} (h : Progress (v :: vs)) : Progress vs := by
+  rcases h with h | h
+  · left; simp at h; omega
+  · right; intro x hx; exact h x (by simp [hx])
+
+/-- The zero-progress guard of `decN` / `sdecN` never fires on an element of a `Progress` list. -/
+theorem Progress.head_guard {v : Val} {vs : List Val} (h : Progress (v :: vs)) :
+    ¬ ((enc v).length = 0 ∧ loopSlack ≤ vs.length) := by
+  rintro ⟨h0, hs⟩
+  rcases h with h | h
+  · simp at h; omega
+  · have := h v (by simp); rw [← length_enc] at this; omega
+
+/-- A map key occupies at least one byte. -/
+theorem key_enc_pos (env : Env) (k : Ty) (hk : isKeyTy k = true) : (a : Val) → wt env k a → 0 < (enc a).length
+  | .scalar w n, h => by
+      simp only [wt] at h
+      obtain ⟨_, h⟩ := h
+      rcases h with ⟨_, hw⟩ | ⟨_, rfl, _⟩ | ⟨_, rfl⟩ | ⟨_, rfl⟩ | ⟨_, rfl, _⟩ <;> simp [enc] <;> omega
+  | .str bs, _ => by simp [enc]; omega
+  | .guid bs, _ => by simp [enc]
+  | .arr _, h => by simp only [wt] at h; obtain ⟨_, rfl, _⟩ := h; simp [isKeyTy] at hk
+  | .map _, h => by simp only [wt] at h; obtain ⟨_, _, rfl, _⟩ := h; simp [isKeyTy] at hk
+  | .struct _, h => by simp only [wt] at h; obtain ⟨_, _, rfl, _⟩ := h; simp [isKeyTy] at hk
+  | .msg _, h => by simp only [wt] at h; obtain ⟨_, _, rfl, _⟩ := h; simp [isKeyTy] at hk
+  | .union _ _, h => by simp only [wt] at h; obtain ⟨_, _, _, rfl, _⟩ := h; simp [isKeyTy] at hk
+
 theorem find_msgField (fds : List MsgField) (i : Nat) (fd : MsgField)
     (h : fds.find? (fun fd => fd.idx == i) = some fd) : fd.idx = i := by
   have := List.find?_some h
@@ -150,7 +177,7 @@ theorem dec_enc (env : Env) (hE : EnvOk env) :
       obtain ⟨hn, h⟩ := h
       have hr := readN_append' safe w (leBytes w n) rest (by simp)
       rcases h with h | h | h | h | h
-      · subst h; simp [dec, enc, hr, ofLe_leBytes w n hn]
+      · obtain ⟨h, _⟩ := h; subst h; simp [dec, enc, hr, ofLe_leBytes w n hn]
       · obtain ⟨rfl, rfl, h1⟩ := h
         have : n = 0 ∨ n = 1 := by omega
         rcases this with rfl | rfl <;> simp [dec, enc, Facts.szBool, hr, ofLe_leBytes 1 _ hn]
@@ -174,19 +201,19 @@ theorem dec_enc (env : Env) (hE : EnvOk env) :
       match f, hf with
       | f+1, hf =>
       simp only [wt] at h
-      obtain ⟨t, rfl, hl, hw⟩ := h
+      obtain ⟨t, rfl, hl, hw, hp⟩ := h
       simp only [rank] at hf
       have hf' : rankList vs < f := by omega
       simp only [dec, enc, List.append_assoc, readU32_append safe vs.length _ hl, Res.ok_bind]
       cases hfs : (if safe then fixedSize t else none) with
       | none =>
-        simp only [decN_enc env hE vs t safe f rest hw hf', Res.ok_bind, Res.pure_eq]
+        simp only [decN_enc env hE vs t safe f rest hw hp hf', Res.ok_bind, Res.pure_eq]
       | some s =>
         have hs : fixedSize t = some s := by
           cases safe <;> simp at hfs; exact hfs
         have hlen : ¬ (encList vs ++ rest).length < vs.length * s := by
           simp [length_encList, vsizeList_of_fixed env t s hs vs hw]
-        simp only [hlen, if_false, decN_enc env hE vs t false f rest hw hf', Res.ok_bind, Res.pure_eq]
+        simp only [hlen, if_false, decN_enc env hE vs t false f rest hw hp hf', Res.ok_bind, Res.pure_eq]
   | .map kvs, ty, safe, f, rest, h, hf => by
       match f, hf with
       | f+1, hf =>
@@ -280,16 +307,21 @@ theorem dec_enc (env : Env) (hE : EnvOk env) :
           = (leBytes 4 (enc v).length ++ UInt8.ofNat d :: enc v) ++ rest by simp, List.drop_left]
 
 theorem decN_enc (env : Env) (hE : EnvOk env) :
-    (vs : List Val) → ∀ (t : Ty) (safe : Bool) (f : Nat) (rest : List Byte), wtList env t vs → rankList vs < f →
+    (vs : List Val) → ∀ (t : Ty) (safe : Bool) (f : Nat) (rest : List Byte), wtList env t vs → Progress vs →
+      rankList vs < f →
       decN (dec f env safe t) vs.length (encList vs ++ rest) = .ok (vs, rest)
-  | [], _, _, _, _, _, _ => by simp [decN, encList]
-  | v :: vs, t, safe, f, rest, h, hf => by
+  | [], _, _, _, _, _, _, _ => by simp [decN, encList]
+  | v :: vs, t, safe, f, rest, h, hp, hf => by
       simp only [wtList] at h
       simp only [rankList] at hf
       have h1 : rank v < f := by omega
       have h2 : rankList vs < f := by omega
-      simp [decN, encList, List.append_assoc, dec_enc env hE v t safe f _ h.1 h1,
-        decN_enc env hE vs t safe f rest h.2 h2]
+      have hg : ¬ ((encList vs ++ rest).length = (enc v ++ (encList vs ++ rest)).length ∧ loopSlack ≤ vs.length) := by
+        intro ⟨hl, hs⟩
+        simp only [List.length_append] at hl
+        exact hp.head_guard ⟨by omega, hs⟩
+      simp only [List.length_cons, decN, encList, List.append_assoc, dec_enc env hE v t safe f _ h.1 h1,
+        Res.ok_bind, hg, if_false, decN_enc env hE vs t safe f rest h.2 hp.tail h2, Res.pure_eq]
 
 theorem decEntries_enc (env : Env) (hE : EnvOk env) :
     (kvs : List (Val × Val)) → ∀ (k t : Ty) (safe : Bool) (f : Nat) (rest : List Byte) (acc : List (Val × Val)),
